@@ -79,6 +79,7 @@ package parser
 //@   assume [errors-non-nil] forall i in 0..len(p.errors) :: p.errors[i] != nil
 //@   assigns p.errors, elems(p.errors)
 //@   panics_if [bailout] p.mode & AllErrors == 0 && len(p.errors) > 10
+//@   at panic #1 assert [gives-up-with-a-bailout-value] istype(value, bailout)
 //@   ensures fresh(p.errors) || samearray(p.errors, old(p.errors))
 //@   ensures [one-error] len(p.errors) == old(len(p.errors)) || len(p.errors) == old(len(p.errors)) + 1
 //@   ensures [bounded] p.mode & AllErrors == 0 ==> len(p.errors) <= 11 || len(p.errors) == old(len(p.errors))
@@ -246,12 +247,15 @@ package parser
 //@ # that is not a bailout is raised again; the parse functions themselves are outside the claim)
 //@ func parseFile$1
 //@   panics_if [repanic-non-bailout] true
+//@   at panic #1 assert [a-bailout-is-never-raised-again] !istype(value, bailout)
 //@   ensures [errors-sorted] errSorted == 1
 //@ func ParseExprFrom$1
 //@   panics_if [repanic-non-bailout] true
+//@   at panic #1 assert [a-bailout-is-never-raised-again] !istype(value, bailout)
 //@   ensures [errors-sorted] errSorted == 1
 //@ func ParseExprEx$1
 //@   panics_if [repanic-non-bailout] true
+//@   at panic #1 assert [a-bailout-is-never-raised-again] !istype(value, bailout)
 //@   ensures [errors-sorted] errSorted == 1
 //@
 //@ func (*parser).errorExpected
